@@ -295,8 +295,8 @@ func parseAnnouncement(data []byte) *meshAnnouncement {
 	if len(md) < 3 || len(md) < 2+int(md[1]) {
 		return nil
 	}
-	var hdr router.PingHeader
-	if err := cbor.Unmarshal(md[2:2+int(md[1])], &hdr); err != nil || hdr.PingType != "announce" {
+	hdr := pingHdr{}
+	if err := cbor.Unmarshal(md[2:2+int(md[1])], &hdr); err != nil || hdr["t"] != "announce" {
 		return nil
 	}
 	an := &meshAnnouncement{origin: f.SrcIP(), sig: string(f.AuthData()), ok: true}
@@ -319,4 +319,40 @@ func parseAnnouncement(data []byte) *meshAnnouncement {
 		an.hops = append(an.hops, chain[i])
 	}
 	return an
+}
+
+// pingHdr is the harness's own view of a ping header (decoded and encoded as a
+// CBOR map, so that it does not depend on the field set of router.PingHeader).
+type pingHdr map[string]any
+
+// pingHeaderCBOR encodes a ping header for the given identity fields.
+func pingHeaderCBOR(pingID uint64, pingType string, code uint8, followUp bool, hash, keyType string, pub []byte, easing uint64) []byte {
+	h := pingHdr{"i": pingID, "t": pingType}
+	if code != 0 {
+		h["c"] = code
+	}
+	if followUp {
+		h["f"] = true
+	}
+	if hash != "" {
+		h["h"] = hash
+	}
+	if keyType != "" {
+		h["a"] = keyType
+	}
+	if len(pub) > 0 {
+		h["k"] = pub
+	}
+	if easing != 0 {
+		h["e"] = easing
+	}
+	out, err := cbor.Marshal(h)
+	if err != nil {
+		panic(err)
+	}
+	return out
+}
+
+func pingHeaderFor(id *ids.Identity, pingID uint64, pingType string, code uint8, followUp bool) []byte {
+	return pingHeaderCBOR(pingID, pingType, code, followUp, string(id.Addr.Hash), string(id.Addr.Type), id.Addr.PublicKey, id.Addr.Easing)
 }
